@@ -306,7 +306,7 @@ def gen_cases(ctx):
         return key, [], encode_body(rng, key, [], style)
 
     # 1. well-formed small bodies, EVERY 2-cut (all2) + 1-byte feeding + hot 3..6-cuts
-    for i in range(ctx.scale(360, 6000)):
+    for i in range(ctx.scale(360, 4000)):
         style = PLAIN if i % 3 == 0 else FANCY
         key, parts, body = small_body(style)
         assert independent_split(key, body) == [p[3] for p in parts], (key, parts, body)
@@ -321,8 +321,8 @@ def gen_cases(ctx):
         cases.append('mp %d %s b%d %s %s' % (rng.choice(MEMS), hexs(ct), rng.choice([2, 3, 5, 7, 16, 64]), hexs(body), exp))
 
     # 2. well-formed medium / large bodies, 0..10 parts, random multi-cuts and buffer sizes 1..64 KiB
-    sizes = ctx.scale([200, 1000, 5000, 20000], [200, 1000, 5000, 20000, 70000, 262144])
-    for i in range(ctx.scale(260, 2500)):
+    sizes = ctx.scale([200, 1000, 5000, 20000], [200, 200, 1000, 1000, 5000, 5000, 20000, 20000, 70000, 262144])
+    for i in range(ctx.scale(260, 700)):
         style = PLAIN if i % 3 == 0 else FANCY
         key = gen_key(rng)
         maxlen = rng.choice(sizes)
@@ -358,7 +358,7 @@ def gen_cases(ctx):
                                              rng.choice([1024, 4096, 65536, 7919]), hexs(body), expect_token(parts)))
 
     # 4. refused bodies derived from well-formed ones: truncations and trailing bytes ("!" = must not be delivered)
-    for i in range(ctx.scale(300, 5000)):
+    for i in range(ctx.scale(300, 4000)):
         key, parts, body = small_body(FANCY if i % 2 else PLAIN, 250)
         ct = enc_ct(rng, key, PLAIN)
         if rng.random() < 0.5 and len(body) > 1:
@@ -370,7 +370,7 @@ def gen_cases(ctx):
 
     # 5. malformed stream: mutated bodies, odd Content-Type headers, CR inside keys, lone CRs in headers.
     #    No expectation ("-"): correspondence + chunking agreement only.
-    for i in range(ctx.scale(350, 6000)):
+    for i in range(ctx.scale(350, 4000)):
         key, parts, body = small_body(FANCY, 250)
         ct = enc_ct(rng, key, FANCY)
         for _ in range(rng.randrange(1, 4)):
@@ -468,7 +468,7 @@ def gen_rq_cases(ctx):
         return random_cuts(rng, n, rng.randrange(1, 8))
 
     # A. well-formed multipart bodies, limits swept around the sizes that matter
-    for i in range(ctx.scale(450, 6000)):
+    for i in range(ctx.scale(450, 4000)):
         style = PLAIN if i % 3 == 0 else FANCY
         key = gen_key(rng)
         big = rng.random() < 0.12
